@@ -103,7 +103,7 @@ const UNBOUND_COMPS: &[&str] = &["Foo", "foo", "my-comp", "Bar", "_Fragment", "K
 const ATTR_NAMES: &[&str] = &[
     "id", "class", "style", "key", "ref", "title", "onClick", "onFoo", "onUpdate:modelValue",
     "type", "value", "data-x", "aria-label", "once", "only", "o", "on", "nativeOn", "model",
-    "innerHTML", "xlink:href", "a:b", "modelValue", "_", "$", "is",
+    "innerHTML", "xlink:href", "a:b", "modelValue", "_", "$", "is", "v1", "v_size", "v$", "v",
 ];
 const DIR_NAMES: &[&str] = &[
     "v-show", "v-foo", "v-foo-bar", "vFoo", "vFooBar", "v-html", "v-text", "v-model",
